@@ -182,3 +182,90 @@ Example C06_nonvacuous_two_phases :
   let r := mkrxn [-1; 0; 0; 0; 0; 1 # 2;   0; 2; 0; 0; 0; 1 # 2] 0 (1 # 2) false [1; 2]%nat in
   exists d, dH c r = Ok d /\ d == 1088.
 Proof. eexists. split; [vm_compute; reflexivity|]. reflexivity. Qed.
+
+(* ---------- dH on a weight basis, phase-tagged reactions included ---------- *)
+(* r' is r per unit mass (C05_rebase_is_wt_of); W the molecular weights tiled over the phases *)
+Theorem C06_dH_wt_phases : forall c r r' d d',
+  phases r <> [] -> phases r' = phases r -> wt r = false -> wt r' = true ->
+  let W := tile (Nat.max 1 (length (phases r))) (c_mw c) in
+  wt_of W r r' -> length W = length (st r) -> Forall (fun x => ~ x == 0) W ->
+  dH c r = Ok d -> dH c r' = Ok d' -> d' * nthq W (ridx r) == d.
+Proof. exact dH_wt_phases_lemma. Qed.
+Print Assumptions C06_dH_wt_phases.
+
+(* ---------- isothermal reaction, any object, either basis ---------- *)
+(* [heat_obj g o v] adds up, member by member and in the order the object applies them,
+   X_k * (g . S_k) * v[r_k], v being the buffer (molar flows, or mass flows on a weight basis) at the
+   moment member k acts: the feed for the members of a parallel set, the running composition for a
+   series set and from part to part of a system.  With g = weights o w (hf + lat), X_k * (g . S_k) is
+   the dH the member reports (C06_dH_mol / C06_dH_phases, per mole or per mass).  So:
+   Hnet' - Hnet = sum_k dH_k * (reactant fed to k) + sum_i (h_i(T) - latent_i) * dm_i. *)
+Theorem C06_isothermal_object : forall Hfun hf hs lat w o s s',
+  (forall m T, Hfun m T == vdot (hs T) m) ->
+  length w = length (smol s) -> Forall (fun x => ~ x == 0) w ->
+  Forall (wf (length (smol s))) (obj_members o) ->
+  length hf = length lat -> length (hs (sT s)) = length lat ->
+  nonneg (fst (react_obj o (buffer o w (smol s)))) ->
+  isothermal w o s = (None, s') ->
+  Hnet Hfun hf s' - Hnet Hfun hf s ==
+    heat_obj (weights o w (vadd hf lat)) o (buffer o w (smol s))
+    + (vdot (vsub (hs (sT s)) lat) (smol s') - vdot (vsub (hs (sT s)) lat) (smol s)).
+Proof. exact isothermal_object_lemma. Qed.
+Print Assumptions C06_isothermal_object.
+
+(* the decomposition itself, for any linear functional of the flows *)
+Theorem C06_stream_functional : forall g w o mol mol',
+  length w = length mol -> Forall (fun x => ~ x == 0) w ->
+  Forall (wf (length mol)) (obj_members o) ->
+  nonneg (fst (react_obj o (buffer o w mol))) ->
+  call_stream w o mol = (None, mol') ->
+  vdot g mol' - vdot g mol == heat_obj (weights o w g) o (buffer o w mol).
+Proof. exact stream_functional_lemma. Qed.
+Print Assumptions C06_stream_functional.
+
+(* heats that agree wherever the stoichiometry is non-zero give the same dH (the latent table is
+   only consulted there) *)
+Theorem C06_dH_support : forall (u v s : vec), length u = length v ->
+  (forall j, ~ nthq s j == 0 -> nthq u j == nthq v j) -> vdot u s == vdot v s.
+Proof. exact vdot_support. Qed.
+Print Assumptions C06_dH_support.
+
+(* ---------- single-phase Stream: the H setter's phase fallback ---------- *)
+(* the solver is an oracle that may raise in any phase; whenever adiabatic_reaction returns normally
+   the balance closes, with Hnet evaluated in the phase the stream ends up in *)
+Theorem C06_adiabatic_flip : forall (HfunP : nat -> vec -> Q -> Q) (solveP : nat -> vec -> Q -> res Q) (hf : vec),
+  (forall ph m h t, solveP ph m h = Ok t -> HfunP ph m t == h) ->
+  (forall ph m t, isempty m = true -> HfunP ph m t == 0) ->
+  forall is_stream w o s Qin s',
+  adiabatic_flip HfunP solveP hf is_stream w o s Qin = (None, s') ->
+  HnetP HfunP hf s' == HnetP HfunP hf s + Qin /\ call_stream w o (pmol s) = (None, pmol s').
+Proof. exact adiabatic_flip_lemma. Qed.
+Print Assumptions C06_adiabatic_flip.
+
+(* when it raises: T is the old one, the flows are what the reaction step left, and the phase has been
+   switched to the other fluid phase exactly when the first solve failed in a fluid phase *)
+Theorem C06_adiabatic_flip_error : forall (HfunP : nat -> vec -> Q -> Q) (solveP : nat -> vec -> Q -> res Q) (hf : vec),
+  forall w o s Qin e s',
+  adiabatic_flip HfunP solveP hf true w o s Qin = (Some e, s') ->
+  pT s' = pT s /\ pmol s' = snd (call_stream w o (pmol s)) /\
+  (fst (call_stream w o (pmol s)) = Some e /\ pph s' = pph s \/
+   fst (call_stream w o (pmol s)) = None /\
+     exists h e1, solveP (pph s) (pmol s') h = Err e1 /\
+       (lower_phase (pph s) = 1%nat /\ pph s' = 2%nat /\ solveP 2%nat (pmol s') h = Err e \/
+        lower_phase (pph s) = 2%nat /\ pph s' = 1%nat /\ solveP 1%nat (pmol s') h = Err e \/
+        lower_phase (pph s) <> 1%nat /\ lower_phase (pph s) <> 2%nat /\ pph s' = pph s /\ e = e1)).
+Proof. exact adiabatic_flip_error_lemma. Qed.
+Print Assumptions C06_adiabatic_flip_error.
+
+(* non-vacuity: the solver raises in the liquid phase; the gas phase is tried and the balance closes *)
+Example C06_nonvacuous_flip :
+  exists s', adiabatic_flip (fun _ => stubH exCn) (stubSolveP exCn [2%nat]) exHf true exMW
+               (Simple false (Single exR)) (mkP [4; 64; 64; 64; 64; 64] 350 2) 1024 = (None, s')
+    /\ pph s' = 1%nat.
+Proof. eexists. split; [vm_compute; reflexivity|]. reflexivity. Qed.
+
+Example C06_nonvacuous_flip_error :
+  exists e s', adiabatic_flip (fun _ => stubH exCn) (stubSolveP exCn [1%nat; 2%nat]) exHf true exMW
+               (Simple false (Single exR)) (mkP [4; 64; 64; 64; 64; 64] 350 2) 1024 = (Some e, s')
+    /\ pph s' = 1%nat /\ pT s' = 350.
+Proof. eexists. eexists. split; [vm_compute; reflexivity|]. split; reflexivity. Qed.
